@@ -266,6 +266,18 @@ fn evaluate(
 /// C05 in its own words ("never issues a release for a lock the calling thread does not hold").
 #[allow(clippy::too_many_arguments)]
 fn c05_twin(rep: &mut Report, rule: &str, detail: &str, kind: &str, api: Api, mode: Mode, case: &str, index: u64) {
+	if rule == "R2_lock_leaked" {
+		// C04 in its own words: an acquisition that did not succeed holds none of the members
+		rep.violations.push(VRec {
+			prop: "C04".into(),
+			rule: "unwound_acquisition_left_holds".into(),
+			detail: format!("{rule}: {detail}"),
+			signature: format!("C04:unwound_acquisition_left_holds:{kind}:{}:{}", api.name(), mode.ch()),
+			case: case.to_string(),
+			index,
+			log: vec![],
+		});
+	}
 	if rule == "R2_released_twice" || rule == "R3_released_not_held" {
 		rep.violations.push(VRec {
 			prop: "C05".into(),
